@@ -356,6 +356,10 @@ func spaces(tier string) []*gridx.Space {
 			return "", ""
 		}))
 	}
+	// single calls over long series (1024 = a multiple of every power-of-two block size up to 1024; 1027 = no such multiple)
+	for _, s := range append([]*gridx.Space{}, out...) {
+		out = append(out, s.LongClones([]int{1024, 1027}, 4)...)
+	}
 	return out
 }
 
